@@ -1500,6 +1500,19 @@ func buildSelectFieldsWithExpressions(fields []Field) (
 				selectFields[aggFields[0].Placeholder] = aggFields[0].AggType
 				fieldMap[aggFields[0].Placeholder] = aggFields[0].InputField
 
+				// The first argument is the aggregated value. When it is an expression
+				// (not a bare column or a nested path) it has to be evaluated per row,
+				// exactly like the argument of a single-parameter aggregate.
+				if containsOperators(n) || containsFunctions(n) {
+					if parsedArg, argErr := expr.NewExpression(n); argErr == nil {
+						expressions[aggFields[0].Placeholder] = types.FieldExpression{
+							Field:      n,
+							Expression: n,
+							Fields:     parsedArg.GetFields(),
+						}
+					}
+				}
+
 				// Add post-aggregation expression (which just returns the placeholder value)
 				postAggExpressions = append(postAggExpressions, types.PostAggregationExpression{
 					OutputField:        alias,
